@@ -863,19 +863,26 @@ def end_to_end_rejection(case):
         ScenarioRunner.set_depending_on_option = orig_set
         ScenarioRunner.run_and_analyze_scenario = orig_run
     # a valid run leaves the caller's dictionary alone, too
-    o = copy.deepcopy(base)
-    o["kg_meat_per_large_animal"] = 300
-    before = copy.deepcopy(o)
-    cx.n["e2e_valid_runs"] += 1
-    try:
-        ScenarioRunnerNoTrade().run_model_no_trade(title="t", create_pptx_with_all_countries=False, show_country_figures=False, show_map_figures=False,
-                                                  add_map_slide_to_pptx=False, scenario_option=o, countries_list=[case["iso"]], return_results=True)
-    except BaseException as e:  # noqa: BLE001
-        if isinstance(e, KeyboardInterrupt):
-            raise
-        cx.n["e2e_valid_run_failed"] += 1
-    if o != before:
-        cx.bad("caller_options_modified", "run_model_no_trade changed the caller's options: %s" % {k: (before.get(k), o.get(k)) for k in set(o) | set(before) if o.get(k) != before.get(k)})
+    # (the plain call and the call the web interface makes: save_all_results=True, with a title that is not in the dictionary)
+    for web in (False, True):
+        o = copy.deepcopy(base)
+        o["kg_meat_per_large_animal"] = 300
+        before = copy.deepcopy(o)
+        cx.n["e2e_valid_runs"] += 1
+        try:
+            import contextlib
+            import io
+
+            with contextlib.redirect_stdout(io.StringIO()):
+                ScenarioRunnerNoTrade().run_model_no_trade(title="t web" if web else "t", create_pptx_with_all_countries=False, show_country_figures=False, show_map_figures=False,
+                                                          add_map_slide_to_pptx=False, scenario_option=o, countries_list=[case["iso"]], return_results=True, save_all_results=web)
+        except BaseException as e:  # noqa: BLE001
+            if isinstance(e, KeyboardInterrupt):
+                raise
+            cx.n["e2e_valid_run_failed"] += 1
+        if o != before:
+            cx.bad("caller_options_modified", "run_model_no_trade%s changed the caller's options: %s" % (" (save_all_results=True)" if web else "", {k: (before.get(k), o.get(k)) for k in set(o) | set(before) if o.get(k) != before.get(k)}),
+                   web=web)
     return cx
 
 
